@@ -152,6 +152,32 @@ theorem C15_no_retro_mutation (static : Sel → Bool) (s s1 : HState) (hw : WFH 
     simp only [hg, Option.getD_some] at ha
     exact hw1 l' (List.mem_of_getElem? hg) a ha
 
+/-- **The object-level tracer refines the value-level one**: what a caller sees through the list a call returns is
+exactly `runTrace` of the kernel's operations (and a failing call fails with the same error), from any instance state. -/
+theorem C15_heap_refines (static : Sel → Bool) (s : HState) (ops : List Op) :
+    match hcall static s ops with
+    | (.ok lid, s1) => runTrace static ops = .ok (s1.view lid)
+    | (.error e, _) => runTrace static ops = .error e := by
+  unfold hcall
+  simp only [C15_shape.2.2.2, C15_shape.2.2.1, if_true, hInit_eq]
+  have ht : Tidy { s with lists := s.lists ++ [[]], trace := s.lists.length, cur := none } :=
+    ⟨by simp, by simp [List.getD], by intro a ha; simp [List.getD] at ha⟩
+  have habs : HState.abs { s with lists := s.lists ++ [[]], trace := s.lists.length, cur := none } = TState.init := by
+    simp [HState.abs, HState.view, TState.init, List.getD]
+  have hs := hrun_sim static ops _ ht
+  rw [habs] at hs
+  generalize hrun static { s with lists := s.lists ++ [[]], trace := s.lists.length, cur := none } ops = res at hs
+  obtain ⟨rr, s'⟩ := res
+  cases rr with
+  | error e =>
+    simp only at hs ⊢
+    simp [runTrace, hs, Except.map]
+  | ok sf =>
+    simp only at hs ⊢
+    obtain ⟨h1, rfl, _⟩ := hs
+    simp only [runTrace, h1, Except.map, HState.abs, HState.view, Except.ok.injEq]
+    simp [List.getD]
+
 theorem wfh_fresh : WFH HState.fresh := by
   intro l hl a ha
   simp [HState.fresh] at hl
